@@ -31,6 +31,7 @@ inductive PyVal where
   | float (text : PStr) (isZero : Bool)
   | none
   | list (cls : Nat) (l : List PStr)
+  | tuple (l : List PStr)              -- a tuple of strings: joined on output like a list, but not a list elsewhere
   | other (id : Nat) (eqFalse : Bool)
 deriving DecidableEq, Repr
 
@@ -315,6 +316,20 @@ def tagInit (maxDigits : Nat) (lower : PStr → PStr) (b : Option BuilderCfg) (i
       else (copyInto maxDigits cls d []).bind fun d' => .ok ⟨cls, listCls, d', x⟩
     | Option.none => (copyInto maxDigits cls d []).bind fun d' => .ok ⟨cls, listCls, d', x⟩
 
+/-- `dict(**kw)` then `.update(attrs)`: neither goes through `__setitem__` of the subclass, so nothing is coerced -/
+def rawUpdate : Items → Items → Items
+  | d, [] => d
+  | d, (k, v) :: rest => rawUpdate (dictSet d k v) rest
+
+/-- `BeautifulSoup.new_tag(name, attrs=…, **kwattrs)` (bs4/__init__.py:709-727): the builder's dictionary class is
+    instantiated from the keyword attributes, updated with `attrs`, and handed to `Tag.__init__` with the builder -/
+def newTag (maxDigits : Nat) (lower : PStr → PStr) (b : BuilderCfg) (name : PStr) (kw : Items) (attrs : Option Items) :
+    Res TagAttrs :=
+  let container := match attrs with
+    | some a => rawUpdate (rawUpdate [] kw) a
+    | Option.none => rawUpdate [] kw
+  tagInit maxDigits lower (some b) false name (some (b.dictCls, container))
+
 /-- `tag[key] = value` (element.py:2223-2226) -/
 def tagSet (maxDigits : Nat) (t : TagAttrs) (k : Key) (v : PyVal) : Res TagAttrs :=
   (setItem maxDigits t.cls t.items k v).bind fun d => .ok { t with items := d }
@@ -378,6 +393,7 @@ def falseStr : PStr := [70, 97, 108, 115, 101]
 def renderVal (maxDigits : Nat) : PyVal → Rendered
   | .none => .bare
   | .list _ l => .text (joinSp l)
+  | .tuple l => .text (joinSp l)          -- `isinstance(val, list) or isinstance(val, tuple)`
   | .str s => .text s
   | .bool b => .text (if b then trueStr else falseStr)
   | .int i => match pyStrInt maxDigits i with | .ok s => .text s | .valueError => .valueError
